@@ -39,7 +39,18 @@ def dae_model():
     return s
 
 
+def dae_model_vec():
+    """a vector-valued algebraic variable followed by a scalar one"""
+    s = Spec(nx=1, nu=1, nz=3, zshape=[2, 1], ode=[Z(0) + Z(2) * U(0) + t], alg=[Z(0) - nl1(X(0)) * Pg('a'), Z(1) - X(0) * t, Z(2) * 2 - Z(0) - U(0)],
+             params=[Sym('a', value=2), Sym('pc', 'control', value=3), Sym('b', value=Fr(5, 2))], vars=[Sym('w')])
+    s.objective = [integral(X(0) * X(0) + U(0) * U(0) + Z(1) * Z(1)) + Vg('w') * Vg('w') * Pg('b')]
+    s.cons = [Con('==', at_t0(X(0)), Pg('a')), Con('<=<=', -3, 3, mid=U(0))]
+    return s
+
+
 def model(dae=False):
+    if dae == 'vec':
+        return dae_model_vec()
     if dae:
         return dae_model()
     s = Spec(nx=2, nu=1, ode=[nl1(X(1)) * U(0) + t * X(0), X(0) - X(1) * Pg('pc') + Vg('w') * Pg('a')],
@@ -77,6 +88,9 @@ def instances(tier, seed):
         # DAE under DirectCollocation: the special "z" argument (guess for the algebraic variables per control interval)
         for args, ress in ((['zstr'], ['x', 'u']), (['x', 'zstr'], ['x']), (['p:a', 'zstr'], ['u'])):
             add(spec=model(dae=True), cfg=Cfg('DC', N=[2, 3][n % 2], M=[1, 2][(n // 2 + 1) % 2], grid=fam.G_UNI, degree=[2, 3][n % 2], scheme='radau'), args=args, results=ress)
+            n += 1
+        for args, ress in ((['zstr'], ['x']), (['x', 'zstr'], ['x', 'u'])):
+            add(spec=model(dae='vec'), cfg=Cfg('DC', N=[2, 3][n % 2], M=[1, 2][n % 2], grid=fam.G_UNI, degree=[3, 2][n % 2], scheme='radau'), args=args, results=ress)
             n += 1
     return items
 
@@ -319,13 +333,6 @@ def run(item):
     else:
         ch.proved.append('embedded NLP dimensions')
     # ground anchor: imperative calls give the same x0/p as pre(values)
-    if 'zstr' in item['args']:
-        # the imperative counterpart (an array guess for an algebraic variable) raises in rockit (recorded under C10): no anchor here
-        r_ = result(I, ch, {'violations': viol, 'twins_ok': 0, 'twins_bad': 0, 'shape': '%s|%s->%s' % (cfg.tag(), item['args'], item['results']),
-                            'sample': {'cfg': cfg.tag(), 'args': item['args'], 'results': item['results'], 'proved': len(ch.proved)}})
-        if viol:
-            r_['status'] = 'violation'
-        return r_
     vals = fpts[0]
     preF = ca.Function('pre', ain, [node.dep(0), node.dep(1)])
     pv = preF.call([ca.DM(np.array(v)).reshape(a.shape) if a.numel() > 1 else ca.DM(v[0]) for v, a in zip(vals, ain)])
@@ -343,6 +350,12 @@ def run(item):
                 ocp.set_initial(b.us[0], dm)
             elif a == 'w':
                 ocp.set_initial(b.vsym['w'], dm)
+            elif a == 'zstr':
+                # imperative counterpart of the "z" argument: one n_i x N array guess per declared algebraic variable
+                off = 0
+                for zg in b.zgroups:
+                    ocp.set_initial(zg, dm[off:off + zg.numel(), :])
+                    off += zg.numel()
     xi = np.array(opti.debug.value(opti.x, opti.initial())).flatten()
     pi = np.array(opti.debug.value(opti.p, opti.initial())).flatten() if opti.np else np.zeros(0)
     xa = np.array(pv[0]).flatten()
